@@ -137,7 +137,7 @@ func outputTupleDir(v rel.Value, dir string, fs afero.Fs, dryRun bool) error {
 	return nil
 }
 
-func outputFile(content rel.Value, path string, fs afero.Fs, dryRun bool) error {
+func outputFile(content rel.Value, path string, fs afero.Fs, dryRun bool) (err error) {
 	var bytes []byte
 	switch content := content.(type) {
 	case rel.Bytes:
@@ -159,7 +159,11 @@ func outputFile(content rel.Value, path string, fs afero.Fs, dryRun bool) error 
 	if err != nil {
 		return err
 	}
-	defer f.Close()
+	defer func() {
+		if cerr := f.Close(); err == nil {
+			err = cerr
+		}
+	}()
 
 	if _, err = f.Write(bytes); err != nil {
 		return err
